@@ -111,6 +111,7 @@ def run(rep, tier, seed):
     b = Batch(rep)
     sem = CoAPParser(interpret_options=CoAPOptionMode.SEMANTIC)
     syn = CoAPParser()
+    fresh_tasks, fresh_expected = [], []
     n = 1200 if tier == 'quick' else 12000
     for i in range(n):
         k = rnd.choice([0, 1, 1, 2, 3, 5])
@@ -171,11 +172,17 @@ def run(rep, tier, seed):
             fi = fid_of(i_)
             toks += [fi[0], str(fi[1]), tb(bits_of(v))]
         b.add('unparse', ' '.join(toks), o2, parse_model_unparse, fails, dict(layer='coap', op='unparse', bits=bits, options=opts), key=('un', bits))
+        if len(fresh_tasks) < 160 and len(bits) < 24000:
+            # the decompressor's host has never parsed this message: it un-parses the field list it rebuilt (ids as plain strings)
+            fresh_tasks.append(dict(op='unparse-semantic', fields=[[str.__str__(i_) if isinstance(i_, str) else str(i_), bits_of(v)] for i_, v in semf_before]))
+            fresh_expected.append((o2[0], tuple((str(getattr(i_, 'value', i_)), bits_of(v)) for i_, v in sem.unparse(list(semf_before)))) if o2[0] == 'OK' else o2)
         if len(bits) <= 12000:
             bytes_unparse_case(b, sem, semf, 'unparse')
         for d, l in opts:
             rep.hist['delta:%s' % ('0-12' if d < 13 else '13-268' if d < 269 else '269+')] = rep.hist.get('delta:%s' % ('0-12' if d < 13 else '13-268' if d < 269 else '269+'), 0) + 1
             rep.hist['length:%s' % ('0' if l == 0 else '1-12' if l < 13 else '13-268' if l < 269 else '269+')] = rep.hist.get('length:%s' % ('0' if l == 0 else '1-12' if l < 13 else '13-268' if l < 269 else '269+'), 0) + 1
+    import freshproc
+    freshproc.compare(rep, 'C19:unparse', fresh_tasks, fresh_expected, lambda t: 'un-parse of %d semantic fields' % len(t['fields']))
     # unparse on arbitrary (ill-ordered / foreign) field lists: correspondence only
     for _ in range(100 if tier == 'quick' else 1000):
         from microschc.protocol.coap import CoAPFields
